@@ -12,6 +12,11 @@ static bool claim_bytes(size_t required, size_t provided,
                         struct cbor_decoder_result* result) {
   if (required > (provided - result->read)) {
     result->required = required + result->read;
+    if (result->required < required) {
+      /* The declared length does not fit next to the head: saturate instead
+       * of wrapping around to a small (already satisfied) request. */
+      result->required = SIZE_MAX;
+    }
     result->read = 0;
     result->status = CBOR_DECODER_NEDATA;
     return false;
